@@ -98,10 +98,16 @@ impl ObsRun {
         (o, d, p)
     }
 }
+/// where newly found failing inputs are kept: the corpus, or - when the run is against a scratch
+/// checkout (./chk --repo) - a folder of that run, so that seeded regressions do not enter the corpus
+fn found_dir() -> String {
+    match std::env::var("VERIF_WORK") { Ok(w) if w != "/verif/work" => format!("{}/C14/found", w), _ => CORPUS.to_string() }
+}
 fn save_corpus(stream: u64, api: &str, text: &str, why: &str) {
-    let _ = std::fs::create_dir_all(CORPUS);
+    let dir = found_dir();
+    let _ = std::fs::create_dir_all(&dir);
     let h = blake3::hash(text.as_bytes()).to_hex()[..12].to_string();
-    let path = format!("{}/auto_{}_{}.json", CORPUS, api, h);
+    let path = format!("{}/auto_{}_{}.json", dir, api, h);
     if !std::path::Path::new(&path).exists() {
         let _ = std::fs::write(path, serde_json::to_string_pretty(&json!({"stream": stream, "api": api, "text": text, "why": why})).unwrap());
     }
@@ -292,7 +298,7 @@ pub async fn observed_streams(rng: &mut Rng, out: &mut Out, stats: &mut serde_js
         let bytes = if i < 6 { samples[i].clone() } else { bytes };
         let o = bincode_probe(ty, &bytes);
         if o == 0 { decoded += 1; }
-        if o == 2 { let _ = std::fs::create_dir_all(CORPUS); let h = hex::encode(&bytes); let _ = std::fs::write(format!("{}/auto_bincode_{}.json", CORPUS, &blake3::hash(&bytes).to_hex()[..12]), json!({"stream": 7, "api": "bincode", "type": ty, "text": h, "why": last_panic()}).to_string()); }
+        if o == 2 { let dir = found_dir(); let _ = std::fs::create_dir_all(&dir); let h = hex::encode(&bytes); let _ = std::fs::write(format!("{}/auto_bincode_{}.json", dir, &blake3::hash(&bytes).to_hex()[..12]), json!({"stream": 7, "api": "bincode", "type": ty, "text": h, "why": last_panic()}).to_string()); }
         out.push(Case { kind: "wire-bytes".into(), coq: "CObs 7%N".into(), obs: vec![(o == 2) as i64, 1], meta: json!({"type": ty, "len": bytes.len(), "outcome": o, "panic": if o == 2 { last_panic() } else { String::new() }}) });
     }
     stats.insert("observed_accepted_by_stream".into(), json!(accepted));
